@@ -35,7 +35,7 @@ type c11Witness struct {
 func init() {
 	core.Register(&core.Check{
 		ID:   "C11",
-		Rule: "documents: for each of 35 reference positions x 11 reference forms (relative, ./, ../ escaping the root directory, absolute path, file://, http://, https://, //host, whole file, fragment, chain into a second file) one tree, plus documents whose non-reference URL fields (discriminator mapping, operationRef, externalValue, externalDocs, servers, contact/license, extensions) name fetchable locations, plus the C02 multi-site trees; each loaded with external references disallowed and allowed through LoadFromFile, LoadFromDataWithPath and LoadFromData with a recording reader that serves an in-memory universe of files and URLs. The online checker keeps, for every document already served, the set of locations obtained by resolving (RFC 3986) every $ref in it against its own location: disallowed => reads must be a subset of {root}; allowed => every read must be in that set. After every load with references allowed the same Loader is switched back to disallowed and used again through each entry point (reads must stay within {root}). Credentials (userinfo) of a document's location may only travel to references that keep its authority. A second pass runs the default reader on real files under strace (openat/connect) with canary files. Distinct = (position, form, entry point, switch); all are non-trivial.",
+		Rule: "documents: for each of 35 reference positions x 13 reference forms (relative, ./, ../ escaping the root directory, absolute path, file://, http://, https://, https:// with a query, https:// with an escaped slash in the path, //host, whole file, fragment, chain into a second file) one tree, plus documents whose non-reference URL fields (discriminator mapping, operationRef, externalValue, externalDocs, servers, contact/license, extensions) name fetchable locations, plus the C02 multi-site trees; each loaded with external references disallowed and allowed through LoadFromFile, LoadFromDataWithPath and LoadFromData with a recording reader that serves an in-memory universe of files and URLs. The online checker keeps, for every document already served, the set of locations obtained by resolving (RFC 3986) every $ref in it against its own location: disallowed => reads must be a subset of {root}; allowed => every read must be in that set. After every load with references allowed the same Loader is switched back to disallowed and used again through each entry point (reads must stay within {root}). Credentials (userinfo) of a document's location may only travel to references that keep its authority. A second pass runs the default reader on real files under strace (openat/connect) with canary files. Distinct = (position, form, entry point, switch); all are non-trivial.",
 		Assumptions: []string{
 			"the harness resolver (scheme/host kept, path joined to the directory of the containing document and cleaned) is a correct reading of RFC 3986 for these forms",
 			"strace -f sees every file open and socket connect of the child process",
@@ -47,7 +47,8 @@ func init() {
 
 // locKey canonical form of a location (fragment dropped).
 func locKey(u *url.URL) string {
-	p := u.Path
+	// the path as written (an escaped slash is not a separator) and the query are part of what a location is
+	p := u.EscapedPath()
 	if p != "" {
 		p = path.Clean(p)
 	}
@@ -55,7 +56,11 @@ func locKey(u *url.URL) string {
 	if scheme == "file" {
 		scheme = ""
 	}
-	return scheme + "://" + u.Host + "|" + p
+	key := scheme + "://" + u.Host + "|" + p
+	if u.RawQuery != "" {
+		key += "?" + u.RawQuery
+	}
+	return key
 }
 
 // locKeyU: locKey plus the userinfo part of the authority (credentials belong to one authority and must not travel to another).
@@ -89,6 +94,12 @@ func resolveLoc(base *url.URL, ref string) (*url.URL, bool) {
 	default:
 		out.Scheme, out.User, out.Host = base.Scheme, base.User, base.Host
 		out.Path = path.Join(path.Dir(base.Path), r.Path)
+	}
+	if r.Scheme != "" || r.Host != "" || strings.HasPrefix(r.Path, "/") || r.Path != "" {
+		out.RawQuery = r.RawQuery
+		if r.RawPath != "" && (r.Scheme != "" || r.Host != "" || strings.HasPrefix(r.Path, "/")) {
+			out.RawPath = r.RawPath
+		}
 	}
 	return out, true
 }
@@ -223,6 +234,8 @@ func c11Forms() []c11form {
 		{"file-url", fragAt("file:///abs/elsewhere/f.json", "://|/abs/elsewhere/f.json")},
 		{"http-url", fragAt("http://example.invalid/specs/other.json", "http://example.invalid|/specs/other.json")},
 		{"https-url", fragAt("https://example.invalid/specs/other.json", "https://example.invalid|/specs/other.json")},
+		{"https-url-with-query", fragAt("https://example.invalid/registry?name=pet&v=2", "https://example.invalid|/registry?name=pet&v=2")},
+		{"https-url-with-escaped-slash", fragAt("https://example.invalid/specs/team%2Fpets.json", "https://example.invalid|/specs/team%2Fpets.json")},
 		{"whole-file", func(kind, coll, marker string) (string, map[string]string) {
 			return "objs/t.json", map[string]string{"://|w/objs/t.json": mustJSON(targetObject(kind, marker))}
 		}},
@@ -482,6 +495,9 @@ func c11CaseAt(c *core.Ctx, name, rootLocation, rootDoc string, files map[string
 			c.Cover("entry_points", e.name)
 			c.Count("reads_observed", int64(len(rd.reads)))
 			if err != nil {
+				if allowed && os.Getenv("VERIF_C11_DEBUG") != "" && strings.Contains(name, os.Getenv("VERIF_C11_DEBUG")) {
+					fmt.Fprintf(os.Stderr, "DEBUG %s: %v\nreads=%v\nuniverse=%v\n", desc, err, rd.reads, keysOfS(universe))
+				}
 				if allowed {
 					parts := strings.SplitN(name, "/", 2)
 					if len(parts) == 2 {
@@ -669,4 +685,13 @@ func LoadForStrace(file string, allowed bool) {
 	l.IsExternalRefsAllowed = allowed
 	d, err := l.LoadFromFile(file)
 	fmt.Printf("loaded=%v err=%v\n", d != nil, err)
+}
+
+func keysOfS(m map[string]string) []string {
+	var out []string
+	for k := range m {
+		out = append(out, k)
+	}
+	sort.Strings(out)
+	return out
 }
